@@ -166,9 +166,9 @@ def main(argv=None):
                 # a type/syntax/unsupported error anywhere makes the whole unit undecided
                 infra.append("%s: %s [%s]" % (ur["unit"], a["message"], a["detail"].get("src") or a["detail"].get("gen_line")))
                 continue
-            if a["cls"] == "refuted" and not a.get("props") and not a.get("fn"):
+            if a["cls"] in ("refuted", "undecided") and not a.get("props"):
                 # the verifier rejected something this engine cannot place in any function: never dropped - the unit is undecided
-                infra.append("%s: verifier failure that could not be attributed to a function (%s): undecided" % (ur["unit"], a["message"]))
+                infra.append("%s: verifier failure that belongs to no property's text (%s, %s): undecided" % (ur["unit"], a.get("fn") or "no function", a["message"]))
                 continue
             if prop not in a["props"]:
                 other_failures.append(dict(obligation=oid, message=a["message"], props=a["props"]))
